@@ -173,11 +173,7 @@ func ccParse(ops []string) *ccConfig {
 			cfg.fallback = true
 		case f[0] == "prog" && len(f) == 3:
 			if id, err := strconv.Atoi(f[1]); err == nil {
-				if _, dup := cfg.progs[id]; !dup { // the model keeps the latest; generated cases have no duplicates
-					cfg.progs[id] = ccParseActs(f[2])
-				} else {
-					cfg.progs[id] = ccParseActs(f[2])
-				}
+				cfg.progs[id] = ccParseActs(f[2]) // a later line for the same id wins, as in the model
 			}
 		case f[0] == "use" && len(f) == 2:
 			cfg.uses = append(cfg.uses, ccInts(f[1]))
@@ -452,12 +448,14 @@ func (rs *ccReqState) adv(r *rux.Router) bool {
 	} else {
 		rs.resume <- struct{}{}
 	}
+	wd := time.NewTimer(ccWatchdog)
+	defer wd.Stop()
 	select {
 	case <-rs.parked:
 	case p := <-rs.done:
 		rs.finished = true
 		rs.crashed = p
-	case <-time.After(ccWatchdog):
+	case <-wd.C:
 		return false
 	}
 	return true
